@@ -291,9 +291,11 @@ def check_rewrites(ctx, res, drv, circ, tag, with_dm):
                 part = getattr(e, "_partial", None)
                 lost = part is not None and sum(1 for t in wu.snapshot(part)["nodes"].values() if t[0] == "MZ") < \
                     sum(1 for t in before["nodes"].values() if t[0] == "MZ")
-                res.violation("group:MeasurementZ:raises-and-drops-measurement",
-                              "grouping single-qubit gates does not change the state the circuit compiles to",
-                              input=inp, impl=f"AssertionError; measurement removed from the circuit: {lost}")
+                res.count("errors", "known-finding:group:MeasurementZ")
+                if res.errors["known-finding:group:MeasurementZ"] <= 3:  # reported a few times, counted always
+                    res.violation("group:MeasurementZ:raises-and-drops-measurement",
+                                  "grouping single-qubit gates does not change the state the circuit compiles to",
+                                  input=inp, impl=f"AssertionError; measurement removed from the circuit: {lost}")
                 r = drv.ask(f"{cmd} {enc}")
                 if r.get("_err") != "assertion":
                     res.exact_break("wire.group", input=inp, impl="AssertionError", model=r["_raw"][:300])
@@ -609,8 +611,8 @@ def run(ctx):
     drv = Driver()
     t0 = time.time()
     try:
-        n_a = 120 if ctx.quick else 1500
-        budget_a = 55 if ctx.quick else 600
+        n_a = 220 if ctx.quick else 1500
+        budget_a = 70 if ctx.quick else 600
         for k in range(n_a):
             mz = ctx.rng.random() < 0.12
             tag = "random+MZ" if mz else "random"
@@ -625,7 +627,7 @@ def run(ctx):
                 break
         # exhaustive: all circuits of two operations over a small alphabet on (1 emitter, 1 photon)
         exhaustive_small(ctx, res, drv)
-        n_b = 25 if ctx.quick else 300
+        n_b = 60 if ctx.quick else 300
         budget_b = 75 if ctx.quick else 700
         t1 = time.time()
         for k in range(n_b):
